@@ -382,10 +382,14 @@ package meta
 //@   loop 1: invariant 0 <= i && i % 2 == 0 && i <= len(runes) && len(runes) % 2 == 0 && len(runes) > 0 && (forall j :: 0 <= j && j < i && j % 2 == 0 ==> 48 <= runes[j] && runes[j+1] <= 57)
 //@   loop 1: decreases len(runes) - i
 //@ func isDigitRunSkipSafe
-//@   props C19
+//@   props C19 C05
 //@   opt elems_nonnil=regexp/syntax.Regexp
 //@   ensures result && (re.Op == 14 || re.Op == 15 || re.Op == 17) ==> len(re.Sub) == 1 && re.Sub[0].Op == 4 && len(re.Sub[0].Rune) == 2 && re.Sub[0].Rune[0] == 48 && re.Sub[0].Rune[1] == 57
 //@   ensures result ==> re != nil && (re.Op == 14 || re.Op == 15 || re.Op == 17 || re.Op == 18 || re.Op == 13)
+// the other direction is the C05 half: the run skip is what keeps the digit-prefilter candidate loops linear (without it
+// every digit of a long run is verified by an anchored scan of the rest of the run), and it is as valid for a lazy
+// unbounded repetition as for a greedy one - so an unbounded repetition of exactly [0-9] must answer true
+//@   ensures (re != nil && (re.Op == 14 || re.Op == 15 || (re.Op == 17 && re.Max == -1)) && len(re.Sub) == 1 && re.Sub[0].Op == 4 && len(re.Sub[0].Rune) == 2 && re.Sub[0].Rune[0] == 48 && re.Sub[0].Rune[1] == 57) ==> result
 
 // ---- C12: only validated configurations reach the engines: the ranges later code relies on ----
 //@ spec func validCfg(c Config) bool = 10 <= c.MaxRecursionDepth && c.MaxRecursionDepth <= 1000 && (c.EnablePrefilter ==> 1 <= c.MinLiteralLen && c.MinLiteralLen <= 64 && 1 <= c.MaxLiterals && c.MaxLiterals <= 1000) && (c.EnableDFA ==> 1 <= c.MaxDFAStates && c.MaxDFAStates <= 1000000 && 10 <= c.DeterminizationLimit && c.DeterminizationLimit <= 100000)
